@@ -102,6 +102,13 @@ def enum_queries(seed):
         run(f"*:/{g}", lambda p, g=g: G(p.subslot, g))
         run(f"*:{g}/a.b", lambda p, g=g: G(p.slot, g) and p.subslot == "a.b")
         run(f"*/{g}::other", lambda p, g=g: G(p.package, g) and p.repo.repo_id == "other")
+    # globs with several stars inside the token (the generated ones above are at most four characters long): well-formed, so they must parse
+    for g in ("a*b*c", "g*t*k", "*a*b*c*", "a*+*b", "a*.*b", "l*i*b*x", "a*b*", "*a*b", "a*a*a*a", "g*k*", "a*b*c*d*e"):
+        run(f"*/{g}", lambda p, g=g: G(p.package, g), must_parse=True)
+        run(f"{g}/*", lambda p, g=g: G(p.category, g), must_parse=True)
+        run(f"*:{g}", lambda p, g=g: G(p.slot, g), must_parse=True)
+        run(f"*:*/{g}", lambda p, g=g: G(p.subslot, g), must_parse=True)
+        run(f"a*/{g}::other", lambda p, g=g: G(p.category, "a*") and G(p.package, g) and p.repo.repo_id == "other", must_parse=True)
     # version operators on globbed targets, plain atoms, short names
     for op, cmpf in ((">=", lambda c: c >= 0), ("<", lambda c: c < 0), ("=", lambda c: c == 0), ("<=", lambda c: c <= 0), (">", lambda c: c > 0), ("~", None)):
         def vmatch(p, ver, cmpf=cmpf):
